@@ -263,9 +263,9 @@ class Net:
             Sim.current = prev
 
     # ---- events
-    def enabled(self, only=None):
+    def enabled(self, only=None, connects=True):
         ev = []
-        for s in self.pending_connects:
+        for s in (self.pending_connects if connects else ()):
             ev.append(("connect", s))
         for n in self.nodes.values():
             if only is not None and n not in only:
@@ -319,11 +319,11 @@ class Net:
     def step(self, node, t=None):
         self.run(node, node.lp.step_managers, CLOCK.now if t is None else t)
 
-    def drain(self, rnd=None, limit=200_000, only=None):
+    def drain(self, rnd=None, limit=200_000, only=None, connects=True):
         """take enabled events until none is left (quiescence); returns the number of events, or -1 when `limit` is hit"""
         n = 0
         while True:
-            ev = self.enabled(only)
+            ev = self.enabled(only, connects)
             if not ev:
                 return n
             e = ev[0] if rnd is None else ev[rnd.randrange(len(ev))]
